@@ -838,6 +838,7 @@ type zeroCase[G algebra.PrimeGroupElement[G, S], S algebra.PrimeFieldElement[S]]
 	out            map[uint64]*dhjky.Output[G, S]
 	verdicts       map[uint64]drive.Verdict
 	dev            uint64
+	refusedOK      bool // a case that both sides are expected to refuse
 }
 
 // replaceDealing is the hook of a deviating HJKY dealer j: its Round1 broadcast and unicasts are
@@ -879,6 +880,46 @@ func shiftShare[S algebra.PrimeFieldElement[S]](m *msp.MSP[S], sh *kw.Share[S], 
 		vals[k] = v.Add(e.Mul(delta))
 	}
 	return kw.NewShare(sh.ID(), vals...)
+}
+
+// runZeroOneColumn: a one-column MSP (hierarchical level with threshold 1) cannot be dealt: the
+// library's dealer refuses it, and so does the model (deal_col).
+func (rn *runner[G, S]) runZeroOneColumn(idx int) *zeroCase[G, S] {
+	c := rn.c
+	r := vh.NewRng(rn.a.Seed, prop, "zero1/"+c.name, idx)
+	h := pickDistinct(r, poolSmall, 2+r.Intn(3), nil)
+	pol := dred.Policy{Fam: 'H', Levels: []dred.Level{{T: 1, IDs: h}}}
+	ac, err := pol.Build()
+	if err != nil {
+		return nil
+	}
+	sch, err := feldman.NewScheme(c.g, ac)
+	if err != nil {
+		return nil
+	}
+	id := fmt.Sprintf("Z1-%s-%d", c.name, idx)
+	zc := &zeroCase[G, S]{id: id, ids: pol.Holders(), verdicts: map[uint64]drive.Verdict{}, out: map[uint64]*dhjky.Output[G, S]{}, refusedOK: true}
+	labels := map[sharing.ID]string{}
+	for _, x := range zc.ids {
+		labels[sharing.ID(x)] = fmt.Sprintf("%s-zero1-%d", c.name, idx)
+	}
+	full := dhjky.RunFull(dhjky.Config[G, S]{Seed: rn.a.Seed, Prop: prop, Labels: labels, Group: c.g, Access: ac})
+	for pid, o := range full.Out {
+		zc.out[uint64(pid)] = o
+	}
+	for pid, v := range full.Trace.Verdicts {
+		zc.verdicts[uint64(pid)] = v
+	}
+	zc.text = fmt.Sprintf("Z1 group=%s idx=%d :: %s", c.name, idx, pol.Text())
+	// the tapes were not read (the dealing is refused before sampling completes or after): give the model
+	// a column of the right length so that only the one-column guard can refuse
+	var parts []string
+	for _, x := range zc.ids {
+		parts = append(parts, fmt.Sprintf("%d=%s", x, vh.Hex(make([]byte, 48))))
+	}
+	zc.line = strings.Join([]string{"Z", id, vh.ZHex(c.q), mspText(sch.MSP()), strings.Join(parts, "~")}, " ")
+	rn.res.Distribution["hjky: one-column MSP (refused)"]++
+	return zc
 }
 
 func (rn *runner[G, S]) runZero(idx int, deviate bool) *zeroCase[G, S] {
@@ -1024,6 +1065,20 @@ func (rn *runner[G, S]) compareZero(zc *zeroCase[G, S], out string) {
 		rn.res.Mismatch(vh.Mismatch{ID: zc.id, Kind: "corr", Key: key, Detail: detail, Case: zc.text, PropFail: propFails, What: what})
 	}
 	f := strings.Fields(out)
+	if len(f) == 3 && f[1] == zc.id && f[2] == "refused" {
+		// the model cannot deal (one-column MSP, short tape): no party of the implementation may end with a zero share
+		for _, x := range zc.ids {
+			if v := zc.verdicts[x]; v.Class == "ok" && zc.out[x] != nil {
+				corr("hjky-verdict", fmt.Sprintf("party %d: model refuses the dealing, implementation accepts", x))
+			}
+		}
+		return
+	}
+	if zc.refusedOK {
+		// one-sided: the implementation refuses what the model would deal -> not an alarm, but recorded
+		rn.res.Distribution["hjky: model deals a structure the implementation refuses"]++
+		return
+	}
 	if len(f) != 2+len(zc.ids) || f[1] != zc.id {
 		corr("model-output-malformed", out)
 		return
@@ -1347,6 +1402,11 @@ func runGroup[G algebra.PrimeGroupElement[G, S], S algebra.PrimeFieldElement[S]]
 		case "Z":
 			idx, _ := strconv.Atoi(only["idx"])
 			zcs = append(zcs, rn.runZero(idx, only["deviate"] == "true"))
+		case "Z1":
+			idx, _ := strconv.Atoi(only["idx"])
+			if zc := rn.runZeroOneColumn(idx); zc != nil {
+				zcs = append(zcs, zc)
+			}
 		case "V":
 			idx, _ := strconv.Atoi(only["idx"])
 			if dc := rn.runDeviation(idx); dc != nil {
@@ -1366,6 +1426,9 @@ func runGroup[G algebra.PrimeGroupElement[G, S], S algebra.PrimeFieldElement[S]]
 		for i := 0; i < nZero; i++ {
 			zcs = append(zcs, rn.runZero(i, false))
 			zcs = append(zcs, rn.runZero(i, true))
+		}
+		if zc := rn.runZeroOneColumn(0); zc != nil {
+			zcs = append(zcs, zc)
 		}
 		for i := 0; i < nDev; i++ {
 			if dc := rn.runDeviation(i); dc != nil {
